@@ -1,2 +1,160 @@
+//! layout21tetris commands (C08, C09, C19).
+use crate::util::*;
 use crate::CmdFn;
-pub fn commands() -> Vec<(&'static str, CmdFn)> { vec![] }
+use layout21protos as proto;
+use layout21tetris as t;
+use layout21utils::Ptr;
+use proto::tetris as tp;
+use serde_json::{json, Value};
+
+pub fn commands() -> Vec<(&'static str, CmdFn)> {
+    let mut v: Vec<(&'static str, CmdFn)> = vec![("tetris_proto", tetris_proto)];
+    v.extend(crate::tetris2::commands());
+    v
+}
+
+fn ivec2(v: &Value) -> (i64, i64) { (v[0].as_i64().unwrap(), v[1].as_i64().unwrap()) }
+fn outline_of(o: &Value) -> t::outline::Outline {
+    let x: Vec<isize> = ivec(&o["x"]).into_iter().map(|v| v as isize).collect();
+    let y: Vec<isize> = ivec(&o["y"]).into_iter().map(|v| v as isize).collect();
+    t::outline::Outline::new(&x, &y).expect("harness: generated outline must be valid")
+}
+fn cross_of(a: &Value) -> t::tracks::TrackCross {
+    let (l, tr) = ivec2(&a["track"]); let (l2, t2) = ivec2(&a["cross"]);
+    t::tracks::TrackCross::from_parts(l as usize, tr as usize, l2 as usize, t2 as usize)
+}
+/// abstract tetris library (specs/tetris/TetrisProto.tla) -> tetris::Library
+pub fn tetris_lib_of(v: &Value) -> t::library::Library {
+    let mut lib = t::library::Library::new(gets(v, "name"));
+    let cells: Vec<Ptr<t::cell::Cell>> = geta(v, "cells").iter().map(|c| Ptr::new(t::cell::Cell::new(gets(c, "name")))).collect();
+    let find = |n: &str| geta(v, "cells").iter().position(|c| gets(c, "name") == n).map(|i| cells[i].clone()).expect("cell");
+    for (i, c) in geta(v, "cells").iter().enumerate() {
+        let mut lay = t::layout::Layout::new(gets(c, "name"), geti(c, "metals") as usize, outline_of(&c["outline"]));
+        for inst in geta(c, "insts") {
+            let (x, y) = ivec2(&inst["loc"]);
+            lay.instances.add(t::instance::Instance { inst_name: gets(inst, "name").into(), cell: find(gets(inst, "cell")),
+                loc: (x as isize, y as isize).into(), reflect_horiz: getb(inst, "rh"), reflect_vert: getb(inst, "rv") });
+        }
+        for a in geta(c, "assigns") { lay.assignments.push(t::stack::Assign::new(gets(a, "net"), cross_of(a))); }
+        for a in geta(c, "cuts") { lay.cuts.push(cross_of(a)); }
+        cells[i].write().unwrap().layout = Some(lay);
+    }
+    for c in cells { lib.cells.push(c); }
+    lib
+}
+fn tref(r: &t::tracks::TrackRef) -> Value { json!([r.layer, r.track]) }
+pub fn tetris_lib_json(lib: &t::library::Library) -> Value {
+    json!({"name": lib.name, "cells": lib.cells.iter().map(|c| { let c = c.read().unwrap();
+        match &c.layout { None => json!({"name": c.name, "no_layout": true}),
+          Some(l) => json!({"name": c.name, "lname": l.name, "metals": l.metals,
+            "outline": {"x": l.outline.x.iter().map(|p| p.num).collect::<Vec<_>>(), "y": l.outline.y.iter().map(|p| p.num).collect::<Vec<_>>()},
+            "insts": l.instances.iter().map(|i| { let i = i.read().unwrap(); json!({"name": i.inst_name, "cell": i.cell.read().unwrap().name,
+                "loc": match &i.loc { t::placement::Place::Abs(xy) => json!([xy.x.num, xy.y.num]), _ => json!("relative") }, "rh": i.reflect_horiz, "rv": i.reflect_vert}) }).collect::<Vec<_>>(),
+            "assigns": l.assignments.iter().map(|a| json!({"net": a.net, "track": tref(&a.at.track), "cross": tref(&a.at.cross)})).collect::<Vec<_>>(),
+            "cuts": l.cuts.iter().map(|a| json!({"track": tref(&a.track), "cross": tref(&a.cross)})).collect::<Vec<_>>()}) } }).collect::<Vec<_>>()})
+}
+fn ptref(r: &Option<tp::TrackRef>) -> Value { r.as_ref().map(|r| json!([r.layer, r.track])).unwrap_or(Value::Null) }
+fn pcross(c: &tp::TrackCross) -> Value { json!({"track": ptref(&c.track), "cross": ptref(&c.cross)}) }
+pub fn tproto_json(p: &tp::Library) -> Value {
+    json!({"domain": p.domain, "cells": p.cells.iter().map(|c| json!({"name": c.name,
+        "layout": c.layout.as_ref().map(|l| json!([{"name": l.name,
+            "outline": l.outline.as_ref().map(|o| json!({"x": o.x, "y": o.y, "metals": o.metals})).unwrap_or(Value::Null),
+            "instances": l.instances.iter().map(|i| json!({"name": i.name,
+                "cell": match i.cell.as_ref().and_then(|r| r.to.as_ref()) { Some(proto::utils::reference::To::Local(n)) => json!(n), _ => Value::Null },
+                "loc": match i.loc.as_ref().and_then(|p| p.place.as_ref()) { Some(tp::place::Place::Abs(p)) => json!([p.x, p.y]), Some(_) => json!("relative"), None => Value::Null },
+                "rh": i.reflect_horiz, "rv": i.reflect_vert})).collect::<Vec<_>>(),
+            "assignments": l.assignments.iter().map(|a| json!({"net": a.net, "at": a.at.as_ref().map(pcross).unwrap_or(Value::Null)})).collect::<Vec<_>>(),
+            "cuts": l.cuts.iter().map(pcross).collect::<Vec<_>>()}])).unwrap_or(json!([]))})).collect::<Vec<_>>()})
+}
+fn ptref_of(v: &Value) -> Option<tp::TrackRef> { if v.is_null() { None } else { Some(tp::TrackRef { layer: v[0].as_i64().unwrap(), track: v[1].as_i64().unwrap() }) } }
+fn pcross_of(v: &Value) -> tp::TrackCross { tp::TrackCross { track: ptref_of(&v["track"]), cross: ptref_of(&v["cross"]) } }
+/// abstract message -> tp::Library, with one optional breakage applied
+pub fn tproto_of(v: &Value, brk: Option<&Value>) -> tp::Library {
+    let mut p = tp::Library::default();
+    p.domain = gets(v, "domain").into();
+    for (ci, c) in geta(v, "cells").iter().enumerate() {
+        let mut pc = tp::Cell::default();
+        pc.name = gets(c, "name").into();
+        let here = |what: &str, k: usize| brk.map(|b| gets(b, "what") == what && geti(b, "ci") as usize == ci + 1 && (geti(b, "k") as usize == k || k == 0)).unwrap_or(false);
+        if let Some(l) = c["layout"].as_array().and_then(|a| a.first()) {
+            let o = &l["outline"];
+            let mut ox = ivec(&o["x"]); let mut oy = ivec(&o["y"]);
+            if here("outline-x-increasing", 0) { ox = vec![2, 3]; oy = vec![1, 2]; }
+            if here("outline-y-decreasing", 0) { ox = vec![3, 2]; oy = vec![2, 1]; }
+            if here("outline-lengths-differ", 0) { ox.push(0); }
+            if here("outline-negative", 0) { ox[0] = -1; }
+            if here("outline-empty", 0) { ox.clear(); oy.clear(); }
+            let outline = if here("no-outline", 0) { None } else { Some(tp::Outline { x: ox, y: oy, metals: geti(o, "metals") }) };
+            let mut pl = tp::Layout { name: gets(l, "name").into(), outline, ..Default::default() };
+            for (k, i) in geta(l, "instances").iter().enumerate() {
+                let (x, y) = ivec2(&i["loc"]);
+                let place = if here("no-place", k + 1) { None } else if here("relative-place", k + 1) { Some(tp::place::Place::Rel(tp::RelPlace::default())) }
+                            else { Some(tp::place::Place::Abs(proto::raw::Point::new(x, y))) };
+                let loc = if here("no-loc", k + 1) { None } else { Some(tp::Place { place }) };
+                let to = if here("no-cell-target", k + 1) { None }
+                         else if here("undefined-cell", k + 1) { Some(proto::utils::reference::To::Local("no_such_cell".into())) }
+                         else if here("external-cell", k + 1) { Some(proto::utils::reference::To::External(proto::utils::QualifiedName { domain: "d".into(), name: "n".into() })) }
+                         else { Some(proto::utils::reference::To::Local(gets(i, "cell").into())) };
+                let cell = if here("no-cell", k + 1) { None } else { Some(proto::utils::Reference { to }) };
+                pl.instances.push(tp::Instance { name: gets(i, "name").into(), cell, loc, reflect_horiz: getb(i, "rh"), reflect_vert: getb(i, "rv") });
+            }
+            for (k, a) in geta(l, "assignments").iter().enumerate() {
+                let mut at = pcross_of(&a["at"]);
+                if here("assign-no-track", k + 1) { at.track = None; }
+                if here("assign-no-cross", k + 1) { at.cross = None; }
+                pl.assignments.push(tp::Assign { net: gets(a, "net").into(), at: if here("assign-no-at", k + 1) { None } else { Some(at) } });
+            }
+            for (k, a) in geta(l, "cuts").iter().enumerate() {
+                let mut at = pcross_of(a);
+                if here("cut-no-track", k + 1) { at.track = None; }
+                if here("cut-no-cross", k + 1) { at.cross = None; }
+                pl.cuts.push(at);
+            }
+            pc.layout = Some(pl);
+        }
+        p.cells.push(pc);
+    }
+    p
+}
+
+/// C19: {lib, proto, breakages}
+fn tetris_proto(case: &Value) -> Value {
+    let lib = tetris_lib_of(&case["lib"]);
+    let before = tetris_lib_json(&lib);
+    let mut out = json!({"id": id(case), "outcome":"ok", "before": before});
+    match guarded(|| t::conv::proto::ProtoExporter::export(&lib)) {
+        Err(m) => out["export"] = json!({"outcome":"panic","msg":m}),
+        Ok(Err(e)) => out["export"] = json!({"outcome":"err","msg":err_str(e)}),
+        Ok(Ok(p)) => {
+            out["export"] = json!({"outcome":"ok","proto": tproto_json(&p)});
+            out["back"] = match guarded(|| t::conv::proto::ProtoLibImporter::import(&p)) {
+                Err(m) => json!({"outcome":"panic","msg":m}),
+                Ok(Err(e)) => json!({"outcome":"err","msg":err_str(e)}),
+                Ok(Ok(l2)) => json!({"outcome":"ok","lib": tetris_lib_json(&l2)}),
+            };
+        }
+    }
+    // the specification's message, intact and with every single breakage
+    let intact = tproto_of(&case["proto"], None);
+    out["canon"] = match guarded(|| t::conv::proto::ProtoLibImporter::import(&intact)) {
+        Err(m) => json!({"outcome":"panic","msg":m}),
+        Ok(Err(e)) => json!({"outcome":"err","msg":err_str(e)}),
+        Ok(Ok(l)) => match guarded(|| t::conv::proto::ProtoExporter::export(&l)) {
+            Ok(Ok(p2)) => json!({"outcome":"ok","proto": tproto_json(&p2)}),
+            Ok(Err(e)) => json!({"outcome":"export-err","msg":err_str(e)}),
+            Err(m) => json!({"outcome":"export-panic","msg":m}),
+        },
+    };
+    let mut broken = Vec::new();
+    for b in geta(case, "breakages") {
+        let p = tproto_of(&case["proto"], Some(b));
+        let r = match guarded(|| t::conv::proto::ProtoLibImporter::import(&p)) {
+            Err(m) => json!({"outcome":"panic","msg":m}),
+            Ok(Err(_)) => json!({"outcome":"err"}),
+            Ok(Ok(_)) => json!({"outcome":"ok"}),
+        };
+        broken.push(json!({"b": b, "r": r}));
+    }
+    out["broken"] = json!(broken);
+    out
+}
